@@ -404,3 +404,452 @@ theorem scan_closed_mono : ∀ (f : Nat) (nB nP : Int) (last : UInt8) (clo : Boo
       · exact ih _ _ _ _ _ _ _ _ _ h hc
 
 end WuffsVerif.Indent
+
+
+namespace WuffsVerif.Indent
+
+theorem quote_tests (c : UInt8) (h : (c == DQUOTE || c == SQUOTE) = true) :
+    (c == LBRACE) = false ∧ (c == RBRACE) = false ∧ (c == LPAREN) = false ∧ (c == RPAREN) = false ∧
+    (c == SLASH) = false := by
+  have : c = DQUOTE ∨ c = SQUOTE := by simpa using h
+  rcases this with rfl | rfl <;> decide
+
+theorem scan_cooked (f : Nat) (nB nP : Int) (last : UInt8) (clo : Bool) (out pend cs tail : Bytes) (c : UInt8)
+    (h : (c == DQUOTE || c == SQUOTE) = true) :
+    scan (f + 1) nB nP last clo out pend (c :: cs) tail =
+      scan f nB nP last clo (out ++ (pend.reverse ++ c :: cs.take (cs.length - (skipCooked c cs).length))) []
+        (skipCooked c cs) tail := by
+  obtain ⟨t1, t2, t3, t4, t5⟩ := quote_tests c h
+  conv => lhs; unfold scan
+  simp only [t1, t2, t3, t4, t5, Bool.false_eq_true, ↓reduceIte, h]
+
+theorem scan_btick (f : Nat) (nB nP : Int) (last : UInt8) (clo : Bool) (out pend cs tail : Bytes) :
+    scan (f + 1) nB nP last clo out pend (BTICK :: cs) tail =
+      scan f nB nP (lastNonWs (splitLine (splitRaw backTick (cs ++ tail)).2).1)
+        (clo && rawFound backTick (cs ++ tail))
+        (out ++ (pend.reverse ++ BTICK :: (splitRaw backTick (cs ++ tail)).1)) []
+        (splitLine (splitRaw backTick (cs ++ tail)).2).1 (splitLine (splitRaw backTick (cs ++ tail)).2).2 := by
+  conv => lhs; unfold scan
+  have : (BTICK == LBRACE) = false ∧ (BTICK == RBRACE) = false ∧ (BTICK == LPAREN) = false ∧
+      (BTICK == RPAREN) = false ∧ (BTICK == SLASH) = false ∧ (BTICK == DQUOTE || BTICK == SQUOTE) = false := by decide
+  obtain ⟨t1, t2, t3, t4, t5, t6⟩ := this
+  simp only [t1, t2, t3, t4, t5, t6, Bool.false_eq_true, ↓reduceIte, beq_self_eq_true]
+
+theorem slash_tests : (SLASH == LBRACE) = false ∧ (SLASH == RBRACE) = false ∧ (SLASH == LPAREN) = false ∧
+    (SLASH == RPAREN) = false ∧ (STAR == SLASH) = false := by decide
+
+theorem scan_slashslash (f : Nat) (nB nP : Int) (last : UInt8) (clo : Bool) (out pend ds tail : Bytes) :
+    scan (f + 1) nB nP last clo out pend (SLASH :: SLASH :: ds) tail =
+      some ⟨out, pend.reverse ++ SLASH :: SLASH :: ds, tail, nB, nP, lastNonWsRev pend, clo⟩ := by
+  obtain ⟨t1, t2, t3, t4, _⟩ := slash_tests
+  conv => lhs; unfold scan
+  simp only [t1, t2, t3, t4, Bool.false_eq_true, ↓reduceIte, beq_self_eq_true]
+
+theorem scan_slashstar (f : Nat) (nB nP : Int) (last : UInt8) (clo : Bool) (out pend ds tail : Bytes) :
+    scan (f + 1) nB nP last clo out pend (SLASH :: STAR :: ds) tail =
+      scan f nB nP (lastNonWs (splitLine (splitRaw starSlash (ds ++ tail)).2).1)
+        (clo && rawFound starSlash (ds ++ tail))
+        (out ++ (pend.reverse ++ SLASH :: STAR :: (splitRaw starSlash (ds ++ tail)).1)) []
+        (splitLine (splitRaw starSlash (ds ++ tail)).2).1 (splitLine (splitRaw starSlash (ds ++ tail)).2).2 := by
+  obtain ⟨t1, t2, t3, t4, t5⟩ := slash_tests
+  conv => lhs; unfold scan
+  simp only [t1, t2, t3, t4, t5, Bool.false_eq_true, ↓reduceIte, beq_self_eq_true]
+
+/-- the ways a byte can fail to be simple -/
+theorem not_simple_cases (c : UInt8) (cs : Bytes) (h : isSimple c cs = false) :
+    (c == DQUOTE || c == SQUOTE) = true ∨ c = BTICK ∨
+    (c = SLASH ∧ ∃ ds, cs = SLASH :: ds) ∨ (c = SLASH ∧ ∃ ds, cs = STAR :: ds) := by
+  unfold isSimple special2 at h
+  by_cases hq : (c == DQUOTE || c == SQUOTE) = true
+  · exact Or.inl hq
+  by_cases hb : c = BTICK
+  · exact Or.inr (Or.inl hb)
+  have hq' : (c == DQUOTE || c == SQUOTE) = false := Bool.eq_false_iff.mpr hq
+  have hb' : (c == BTICK) = false := by simpa using hb
+  simp only [hq', hb', Bool.not_false, Bool.and_true, Bool.not_eq_eq_eq_not, Bool.not_false,
+    Bool.and_eq_true, Bool.or_eq_true, beq_iff_eq] at h
+  obtain ⟨hc, hd⟩ := h
+  cases cs with
+  | nil => simp at hd
+  | cons d ds =>
+    simp only [List.head?_cons, Option.some.injEq] at hd
+    rcases hd with hd | hd
+    · exact Or.inr (Or.inr (Or.inl ⟨hc, ds, by rw [hd]⟩))
+    · exact Or.inr (Or.inr (Or.inr ⟨hc, ds, by rw [hd]⟩))
+
+/-- the first physical line of `K ++ z ++ T` and of `K ++ T₂` end with the same non-blank byte -/
+theorem first_line_last (K z T T₂ : Bytes) (hz : AllWs z) (hT : NlHead T) (hT₂ : NlHead T₂) :
+    lastNonWs (splitLine (K ++ (z ++ T))).1 = lastNonWs (splitLine (K ++ T₂)).1 := by
+  have e := splitLine_eq K
+  have hn := splitLine_noNl K
+  have hh := splitLine_nlHead K
+  generalize (splitLine K).1 = a at e hn
+  generalize (splitLine K).2 = B at e hh
+  subst e
+  rcases hh with hB | ⟨u, hu⟩
+  · subst hB
+    have hz' : NL ∉ z := fun hm => isWs_ne_nl _ (hz _ hm) rfl
+    have e1 : a ++ [] ++ (z ++ T) = (a ++ z) ++ T := by simp
+    have e2 : a ++ [] ++ T₂ = a ++ T₂ := by simp
+    rw [e1, e2, splitLine_of (a ++ z) T (by simp [hn, hz']) hT, splitLine_of a T₂ hn hT₂]
+    exact lastNonWs_append_ws a z hz
+  · subst hu
+    have e1 : a ++ NL :: u ++ (z ++ T) = a ++ (NL :: (u ++ (z ++ T))) := by simp
+    have e2 : a ++ NL :: u ++ T₂ = a ++ (NL :: (u ++ T₂)) := by simp
+    rw [e1, e2, splitLine_of a _ hn (Or.inr ⟨_, rfl⟩), splitLine_of a _ hn (Or.inr ⟨_, rfl⟩)]
+
+end WuffsVerif.Indent
+
+namespace WuffsVerif.Indent
+
+theorem scan_ws' : ∀ (rest : Bytes) (f : Nat) (nB nP : Int) (last : UInt8) (clo : Bool) (out pend tail : Bytes) (r : ScanOut),
+    AllWs rest → scan f nB nP last clo out pend rest tail = some r →
+    r = ⟨out, pend.reverse ++ rest, tail, nB, nP, last, clo⟩ := by
+  intro rest
+  induction rest with
+  | nil =>
+    intro f nB nP last clo out pend tail r _ h
+    cases f with
+    | zero => simp [scan] at h
+    | succ f => simp only [scan, Option.some.injEq] at h; simp [← h]
+  | cons c cs ih =>
+    intro f nB nP last clo out pend tail r hw h
+    cases f with
+    | zero => simp [scan] at h
+    | succ f =>
+      obtain ⟨h1, h2, h3⟩ := ws_simple c cs (hw c (by simp))
+      rw [scan_simple f nB nP last clo out pend cs tail c h1, h2, h3] at h
+      have := ih f nB nP last clo out (c :: pend) tail r (fun b hb => hw b (by simp [hb])) h
+      rw [this]; simp
+
+/-- pass 2's result agrees with pass 1's, with the final line cut to `L` and the rest replaced -/
+def SameUpTo (r r₂ : ScanOut) (L T₂ : Bytes) : Prop :=
+  r₂.out = r.out ∧ r₂.line = L ∧ r₂.tail = T₂ ∧ r₂.nBraces = r.nBraces ∧ r₂.nParens = r.nParens ∧
+  r₂.last = r.last
+
+theorem allWs_noNl {z : Bytes} (hz : AllWs z) : NL ∉ z := fun hm => isWs_ne_nl _ (hz _ hm) rfl
+
+/-- The congruence of the inner loop, at fuel `f`.  Pass 1 scans `rest ++ tail = K ++ z ++ r.tail`,
+consuming `K ++ z`, where `z` are blanks at the end of its final line; every raw search succeeded.
+Then a scan of `K ++ T₂` (the same bytes without those blanks, followed by anything that is empty
+or starts with a newline) does the same thing. -/
+def CongAt (f : Nat) : Prop :=
+  ∀ (nB nP : Int) (last : UInt8) (clo : Bool) (out pend rest tail : Bytes) (r : ScanOut),
+    scan f nB nP last clo out pend rest tail = some r → r.closed = true →
+    NL ∉ rest → NlHead tail →
+    ∀ (K z L T₂ rest₂ tail₂ : Bytes),
+      rest ++ tail = K ++ (z ++ r.tail) → AllWs z → r.line = L ++ z →
+      NL ∉ rest₂ → NlHead tail₂ → NlHead T₂ → rest₂ ++ tail₂ = K ++ T₂ →
+      ∀ (clo₂ : Bool) (f₂ : Nat), rest₂.length + tail₂.length < f₂ →
+      ∃ r₂, scan f₂ nB nP last clo₂ out pend rest₂ tail₂ = some r₂ ∧ SameUpTo r r₂ L T₂
+
+theorem noNl_of_suffix {p s t : Bytes} (h : p ++ s = t) (ht : NL ∉ t) : NL ∉ s :=
+  fun hm => ht (by rw [← h]; simp [hm])
+
+/-- the raw-string / slash-star step of the congruence -/
+theorem raw_cong (f : Nat) (ih : CongAt f) (q : Bytes) (hq : q ≠ []) (mk : Bytes → Bytes)
+    (nB nP : Int) (clo : Bool) (mid tail : Bytes) (r : ScanOut)
+    (h : scan f nB nP (lastNonWs (splitLine (splitRaw q (mid ++ tail)).2).1) (clo && rawFound q (mid ++ tail))
+          (mk (splitRaw q (mid ++ tail)).1) [] (splitLine (splitRaw q (mid ++ tail)).2).1
+          (splitLine (splitRaw q (mid ++ tail)).2).2 = some r)
+    (hclosed : r.closed = true)
+    (K z L T₂ mid₂ tail₂ : Bytes) (hM : mid ++ tail = K ++ (z ++ r.tail)) (hz : AllWs z)
+    (hL : r.line = L ++ z) (hT₂ : NlHead T₂) (hrT : NlHead r.tail)
+    (hM₂ : mid₂ ++ tail₂ = K ++ T₂) (clo₂ : Bool) (f₂ : Nat) (hf₂ : mid₂.length + tail₂.length < f₂) :
+    ∃ r₂, scan f₂ nB nP (lastNonWs (splitLine (splitRaw q (mid₂ ++ tail₂)).2).1) clo₂
+        (mk (splitRaw q (mid₂ ++ tail₂)).1) [] (splitLine (splitRaw q (mid₂ ++ tail₂)).2).1
+        (splitLine (splitRaw q (mid₂ ++ tail₂)).2).2 = some r₂ ∧ SameUpTo r r₂ L T₂ := by
+  have hfound : rawFound q (mid ++ tail) = true := by
+    have := scan_closed_mono _ _ _ _ _ _ _ _ _ _ h hclosed
+    simp only [Bool.and_eq_true] at this
+    exact this.2
+  obtain ⟨E, hE⟩ := scan_out_prefix _ _ _ _ _ _ _ _ _ _ h
+  have hspec := scan_spec _ _ _ _ _ _ _ _ _ _ h
+  have hb := hspec.bytes
+  have e1 := splitLine_eq (splitRaw q (mid ++ tail)).2
+  have e2 := splitRaw_eq q (mid ++ tail)
+  generalize hr1 : splitRaw q (mid ++ tail) = r1 at *
+  simp only [List.reverse_nil, List.nil_append] at hb
+  rw [e1, hE, hL, List.append_assoc] at hb
+  have hr12 : r1.2 = (E ++ L) ++ (z ++ r.tail) := by
+    have := List.append_cancel_left hb
+    rw [← this]; simp
+  have hK : K = r1.1 ++ (E ++ L) := by
+    rw [hM, hr12, ← List.append_assoc] at e2
+    exact (List.append_cancel_right e2).symm
+  have hstab := splitRaw_stable q hq (mid ++ tail) ((E ++ L) ++ T₂) hfound
+  rw [hr1] at hstab
+  have hM₂' : mid₂ ++ tail₂ = r1.1 ++ ((E ++ L) ++ T₂) := by rw [hM₂, hK]; simp
+  rw [hM₂', hstab]
+  simp only
+  have hlast := first_line_last (E ++ L) z r.tail T₂ hz hrT hT₂
+  rw [← hr12] at hlast
+  rw [← hlast]
+  have hlen : (splitLine ((E ++ L) ++ T₂)).1.length + (splitLine ((E ++ L) ++ T₂)).2.length < f₂ := by
+    have l1 := splitLine_len ((E ++ L) ++ T₂)
+    have l2 := congrArg List.length hM₂'
+    simp only [List.length_append] at l1 l2 ⊢
+    omega
+  exact ih nB nP _ _ _ [] _ _ r h hclosed (splitLine_noNl _) (splitLine_nlHead _) (E ++ L) z L T₂ _ _
+    (by rw [e1, hr12]) hz hL (splitLine_noNl _) (splitLine_nlHead _) hT₂ (splitLine_eq _) clo₂ f₂ hlen
+
+/-- the cooked-string step of the congruence -/
+theorem cooked_cong (f : Nat) (ih : CongAt f) (mk : Bytes → Bytes) (c : UInt8)
+    (nB nP : Int) (last : UInt8) (clo : Bool) (cs tail : Bytes) (r : ScanOut)
+    (h : scan f nB nP last clo (mk (cs.take (cs.length - (skipCooked c cs).length))) [] (skipCooked c cs) tail = some r)
+    (hclosed : r.closed = true) (hcs : NL ∉ cs) (htail : NlHead tail)
+    (K z L T₂ cs₂ tail₂ : Bytes) (hS : cs ++ tail = K ++ (z ++ r.tail)) (hz : AllWs z)
+    (hL : r.line = L ++ z) (hT₂ : NlHead T₂) (hrT : NlHead r.tail)
+    (hcs₂ : NL ∉ cs₂) (htail₂ : NlHead tail₂)
+    (hS₂ : cs₂ ++ tail₂ = K ++ T₂) (clo₂ : Bool) (f₂ : Nat) (hf₂ : cs₂.length + tail₂.length < f₂) :
+    ∃ r₂, scan f₂ nB nP last clo₂ (mk (cs₂.take (cs₂.length - (skipCooked c cs₂).length))) []
+        (skipCooked c cs₂) tail₂ = some r₂ ∧ SameUpTo r r₂ L T₂ := by
+  have hzn : NL ∉ z := allWs_noNl hz
+  have e := splitLine_eq K
+  have hn := splitLine_noNl K
+  have hh := splitLine_nlHead K
+  generalize (splitLine K).1 = a at e hn
+  generalize (splitLine K).2 = B at e hh
+  subst e
+  obtain ⟨p, hp⟩ := skipCooked_suffix c cs
+  have hsn : NL ∉ skipCooked c cs := noNl_of_suffix hp hcs
+  rcases hh with hB | ⟨u, hu⟩
+  · -- the string (and everything up to the blanks) is on this line
+    rw [hB] at hS hS₂
+    simp only [List.append_nil] at hS hS₂
+    have h1 := split_unique cs (a ++ z) tail r.tail hcs (by simp [hn, hzn]) htail hrT (by simpa using hS)
+    have h2 := split_unique cs₂ a tail₂ T₂ hcs₂ hn htail₂ hT₂ hS₂
+    obtain ⟨hcs_eq, htail_eq⟩ := h1
+    obtain ⟨hcs₂_eq, htail₂_eq⟩ := h2
+    rw [hcs₂_eq, htail₂_eq] at hf₂ ⊢
+    clear hcs₂_eq htail₂_eq hS₂ hcs₂ htail₂
+    obtain ⟨E, hE⟩ := scan_out_prefix _ _ _ _ _ _ _ _ _ _ h
+    have hb := (scan_spec _ _ _ _ _ _ _ _ _ _ h).bytes
+    simp only [List.reverse_nil, List.nil_append] at hb
+    rw [hE, hL, List.append_assoc, htail_eq] at hb
+    have hsuf : skipCooked c cs = (E ++ L) ++ z := by
+      have := List.append_cancel_left hb
+      have e3 : E ++ (L ++ z ++ r.tail) = ((E ++ L) ++ z) ++ r.tail := by simp
+      rw [e3] at this
+      exact (List.append_cancel_right this).symm
+    have hlen : z.length ≤ (skipCooked c (a ++ z)).length := by
+      rw [← hcs_eq, hsuf]; simp only [List.length_append]; omega
+    have happ := skipCooked_append c z a.length a (Nat.le_refl _) hlen
+    have htake : cs.take (cs.length - (skipCooked c cs).length) =
+        a.take (a.length - (skipCooked c a).length) := by
+      rw [hcs_eq, happ]
+      have hl := skipCooked_len c a
+      simp only [List.length_append]
+      have : a.length + z.length - ((skipCooked c a).length + z.length) = a.length - (skipCooked c a).length := by omega
+      rw [this, List.take_append_of_le_length (by omega)]
+    rw [htake] at h
+    obtain ⟨p₂, hp₂⟩ := skipCooked_suffix c a
+    have hsn₂ : NL ∉ skipCooked c a := noNl_of_suffix hp₂ hn
+    have hl₂ := skipCooked_len c a
+    exact ih nB nP last clo _ [] _ _ r h hclosed hsn htail (skipCooked c a) z L T₂ _ _
+      (by rw [hcs_eq, happ, htail_eq]; simp) hz hL hsn₂ hT₂ hT₂ rfl clo₂ f₂ (by omega)
+  · -- the line ends inside K: both passes see the same line
+    rw [hu] at hS hS₂
+    have h1 := split_unique cs a tail (NL :: u ++ (z ++ r.tail)) hcs hn htail (Or.inr ⟨_, rfl⟩) (by simpa using hS)
+    have h2 := split_unique cs₂ a tail₂ (NL :: u ++ T₂) hcs₂ hn htail₂ (Or.inr ⟨_, rfl⟩) (by simpa using hS₂)
+    obtain ⟨hcs_eq, htail_eq⟩ := h1
+    obtain ⟨hcs₂_eq, htail₂_eq⟩ := h2
+    have hcc : cs₂ = cs := by rw [hcs₂_eq, hcs_eq]
+    rw [hcc] at hf₂ ⊢
+    have hl := skipCooked_len c cs
+    exact ih nB nP last clo _ [] _ _ r h hclosed hsn htail (skipCooked c cs ++ NL :: u) z L T₂ _ _
+      (by rw [htail_eq]; simp) hz hL hsn htail₂ hT₂ (by rw [htail₂_eq]; simp) clo₂ f₂ (by omega)
+
+theorem scan_cong : ∀ (f : Nat), CongAt f := by
+  intro f
+  induction f with
+  | zero => intro nB nP last clo out pend rest tail r h; simp [scan] at h
+  | succ f ih =>
+    intro nB nP last clo out pend rest tail r h hclosed hrest htail K z L T₂ rest₂ tail₂ hS hz hL hrest₂ htail₂ hT₂ hS₂ clo₂ f₂ hf₂
+    have hspec := scan_spec _ _ _ _ _ _ _ _ _ _ h
+    have hrT : NlHead r.tail := hspec.nlHead htail
+    have hzn : NL ∉ z := allWs_noNl hz
+    cases f₂ with
+    | zero => omega
+    | succ f₂ =>
+    cases K with
+    | nil =>
+      -- only blanks are left on the line
+      simp only [List.nil_append] at hS hS₂
+      have hu := split_unique rest z tail r.tail hrest hzn htail hrT hS
+      obtain ⟨e1, e2⟩ := hu
+      subst e1
+      have hr := scan_ws' _ _ _ _ _ _ _ _ _ _ hz h
+      have hu₂ := split_unique rest₂ [] tail₂ T₂ hrest₂ (by simp) htail₂ hT₂ (by simpa using hS₂)
+      obtain ⟨e3, e4⟩ := hu₂
+      subst e3
+      refine ⟨⟨out, pend.reverse, tail₂, nB, nP, last, clo₂⟩, by simp [scan], ?_⟩
+      rw [hr] at hL ⊢
+      simp only at hL
+      have : L = pend.reverse := (List.append_cancel_right hL).symm
+      simp [SameUpTo, this, e4]
+    | cons k K' =>
+      cases rest with
+      | nil =>
+        exfalso
+        simp only [scan, Option.some.injEq] at h
+        have : r.tail = tail := by rw [← h]
+        rw [this] at hS
+        have := congrArg List.length hS
+        simp at this
+        omega
+      | cons c cs =>
+        simp only [List.cons_append, List.cons.injEq] at hS
+        obtain ⟨hck, hS'⟩ := hS
+        rw [← hck] at hS₂
+        clear hck k
+        have hc_nl : c ≠ NL := fun e => hrest (by simp [e])
+        have hcs : NL ∉ cs := fun hm => hrest (by simp [hm])
+        cases rest₂ with
+        | nil =>
+          exfalso
+          simp only [List.nil_append, List.cons_append] at hS₂
+          rw [hS₂] at htail₂
+          exact hc_nl (nlHead_cons_ne htail₂)
+        | cons c₂ cs₂ =>
+          simp only [List.cons_append, List.cons.injEq] at hS₂
+          obtain ⟨hc₂, hS₂'⟩ := hS₂
+          rw [hc₂] at hrest₂ hf₂ ⊢
+          clear hc₂ c₂
+          have hcs₂ : NL ∉ cs₂ := fun hm => hrest₂ (by simp [hm])
+          have hf₂' : cs₂.length + tail₂.length < f₂ := by simp only [List.length_cons] at hf₂; omega
+          -- the next byte is the same in both passes as far as "/" and "*" are concerned
+          have hheads : ∀ x, x ≠ NL → isWs x = false → (cs.head? = some x ↔ cs₂.head? = some x) := by
+            intro x hx hxw
+            cases K' with
+            | nil =>
+              simp only [List.nil_append] at hS' hS₂'
+              have h1 := split_unique cs z tail r.tail hcs hzn htail hrT hS'
+              have h2 := split_unique cs₂ [] tail₂ T₂ hcs₂ (by simp) htail₂ hT₂ (by simpa using hS₂')
+              rw [h1.1, h2.1]
+              constructor
+              · intro hh
+                exfalso
+                cases z with
+                | nil => simp at hh
+                | cons z0 zs =>
+                  simp only [List.head?_cons, Option.some.injEq] at hh
+                  have := hz z0 (by simp)
+                  rw [hh] at this
+                  rw [this] at hxw
+                  exact Bool.noConfusion hxw
+              · intro hh; simp at hh
+            | cons k' K'' =>
+              cases cs with
+              | nil =>
+                simp only [List.nil_append, List.cons_append] at hS'
+                rw [hS'] at htail
+                have hk' := nlHead_cons_ne htail
+                subst hk'
+                cases cs₂ with
+                | nil => simp
+                | cons d₂ ds₂ =>
+                  exfalso
+                  simp only [List.cons_append, List.cons.injEq] at hS₂'
+                  exact hcs₂ (by simp [hS₂'.1])
+              | cons d ds =>
+                simp only [List.cons_append, List.cons.injEq] at hS'
+                cases cs₂ with
+                | nil =>
+                  exfalso
+                  simp only [List.nil_append, List.cons_append] at hS₂'
+                  rw [hS₂'] at htail₂
+                  have := nlHead_cons_ne htail₂
+                  exact hcs (by simp [hS'.1, this])
+                | cons d₂ ds₂ =>
+                  simp only [List.cons_append, List.cons.injEq] at hS₂'
+                  simp [hS'.1, hS₂'.1]
+          by_cases hsimple : isSimple c cs = true
+          · -- a simple byte: both passes push it
+            have hsimple₂ : isSimple c cs₂ = true := by
+              unfold isSimple special2 at hsimple ⊢
+              have e1 := hheads SLASH (by decide) (by decide)
+              have e2 := hheads STAR (by decide) (by decide)
+              have : (cs₂.head? == some SLASH || cs₂.head? == some STAR) = (cs.head? == some SLASH || cs.head? == some STAR) := by
+                have b1 : (cs₂.head? == some SLASH) = (cs.head? == some SLASH) := by
+                  rw [Bool.eq_iff_iff]; simp only [beq_iff_eq]; exact e1.symm
+                have b2 : (cs₂.head? == some STAR) = (cs.head? == some STAR) := by
+                  rw [Bool.eq_iff_iff]; simp only [beq_iff_eq]; exact e2.symm
+                rw [b1, b2]
+              rw [this]; exact hsimple
+            rw [scan_simple _ _ _ _ _ _ _ _ _ _ hsimple] at h
+            rw [scan_simple _ _ _ _ _ _ _ _ _ _ hsimple₂]
+            exact ih _ _ _ _ _ _ _ _ _ h hclosed hcs htail K' z L T₂ cs₂ tail₂ hS' hz hL hcs₂ htail₂ hT₂ hS₂' clo₂ f₂ hf₂'
+          · have hns : isSimple c cs = false := Bool.eq_false_iff.mpr hsimple
+            rcases not_simple_cases c cs hns with hq | hb | ⟨hc, ds, hds⟩ | ⟨hc, ds, hds⟩
+            · -- a cooked string
+              rw [scan_cooked _ _ _ _ _ _ _ _ _ _ hq] at h
+              rw [scan_cooked _ _ _ _ _ _ _ _ _ _ hq]
+              exact cooked_cong f ih (fun x => out ++ (pend.reverse ++ c :: x)) c nB nP last clo cs tail r h hclosed
+                hcs htail K' z L T₂ cs₂ tail₂ hS' hz hL hT₂ hrT hcs₂ htail₂ hS₂' clo₂ f₂ hf₂'
+            · -- a raw string
+              rw [hb] at h ⊢
+              rw [scan_btick] at h
+              rw [scan_btick]
+              exact raw_cong f ih backTick (by decide) (fun x => out ++ (pend.reverse ++ BTICK :: x)) nB nP clo cs tail r h
+                hclosed K' z L T₂ cs₂ tail₂ hS' hz hL hT₂ hrT hS₂' _ f₂ hf₂'
+            · -- a slash-slash comment
+              rw [hc, hds] at h
+              rw [scan_slashslash] at h
+              simp only [Option.some.injEq] at h
+              have hrt : r.tail = tail := by rw [← h]
+              have hrl : r.line = pend.reverse ++ SLASH :: SLASH :: ds := by rw [← h]
+              rw [hrt] at hS'
+              have hcsK : cs = K' ++ z := by
+                have : cs ++ tail = (K' ++ z) ++ tail := by rw [hS']; simp
+                exact List.append_cancel_right this
+              have hK'n : NL ∉ K' := fun hm => hcs (by rw [hcsK]; simp [hm])
+              have hu₂ := split_unique cs₂ K' tail₂ T₂ hcs₂ hK'n htail₂ hT₂ hS₂'
+              have hhead : cs₂.head? = some SLASH := by
+                apply (hheads SLASH (by decide) (by decide)).mp
+                rw [hds]; rfl
+              cases cs₂ with
+              | nil => simp at hhead
+              | cons d₂ ds₂ =>
+                simp only [List.head?_cons, Option.some.injEq] at hhead
+                rw [hc, hhead, scan_slashslash]
+                refine ⟨_, rfl, ?_⟩
+                have hLeq : L = pend.reverse ++ SLASH :: K' := by
+                  rw [hrl, ← hds, hcsK] at hL
+                  have : (pend.reverse ++ SLASH :: K') ++ z = L ++ z := by rw [← hL]; simp
+                  exact (List.append_cancel_right this).symm
+                rw [← h]
+                simp only [SameUpTo, and_true, true_and]
+                rw [hLeq, ← hu₂.1, hhead]
+                exact ⟨rfl, hu₂.2⟩
+            · -- a slash-star comment
+              rw [hc, hds] at h
+              rw [scan_slashstar] at h
+              -- K' starts with the '*'
+              cases K' with
+              | nil =>
+                exfalso
+                simp only [List.nil_append] at hS'
+                have := split_unique cs z tail r.tail hcs hzn htail hrT hS'
+                have hw := hz STAR (by rw [← this.1, hds]; simp)
+                exact absurd hw (by decide)
+              | cons k' K'' =>
+                rw [hds] at hS'
+                simp only [List.cons_append, List.cons.injEq] at hS'
+                obtain ⟨hk', hS''⟩ := hS'
+                rw [← hk'] at hS₂'
+                cases cs₂ with
+                | nil =>
+                  exfalso
+                  simp only [List.nil_append, List.cons_append] at hS₂'
+                  rw [hS₂'] at htail₂
+                  exact absurd (nlHead_cons_ne htail₂) (by decide)
+                | cons d₂ ds₂ =>
+                  simp only [List.cons_append, List.cons.injEq] at hS₂'
+                  obtain ⟨hd₂, hS₂''⟩ := hS₂'
+                  rw [hc, hd₂, scan_slashstar]
+                  have hf₂'' : ds₂.length + tail₂.length < f₂ := by simp only [List.length_cons] at hf₂'; omega
+                  exact raw_cong f ih starSlash (by decide) (fun x => out ++ (pend.reverse ++ SLASH :: STAR :: x)) nB nP clo ds tail r h
+                    hclosed K'' z L T₂ ds₂ tail₂ hS'' hz hL hT₂ hrT hS₂'' _ f₂ hf₂''
+
+end WuffsVerif.Indent
